@@ -82,6 +82,11 @@ CLAIMS = {
         "note": "Complete for operands whose members fit the alphabet (5 letters quick, 6 thorough: every order type of up to ~3 intervals per operand); the loops are not proved for arbitrarily many intervals. __process after the constructor and true hash-seed independence are not decided (4 deterministic set orders are swept). Trusts ast, re._parser, /verif/sa.",
         "technique": "abstract interpretation of the class-algebra functions, exhaustive over a small abstract alphabet, compared with set algebra via the regex parser",
     },
+    "C08": {
+        "text": "capture(name)/group(flag), in method and class form, are walked by the abstract interpreter on every kind of receiver - empty, non-group of each type tag, and Group-typed text for each parenthesised construct of the re grammar with and without nested named/unnamed/flagged groups (34 receivers) - and the emitted text must have the syntax tree, group count and name table (CPython's parser) of the specified result; name validation order and exceptions; validators' languages included in re's (thorough: per code point over all of Unicode, the regex constant as pre-filter and the whole guard interpreted on candidates); Backreference/Conditional templates and guards.",
+        "note": "What counts as Group-typed is decided by __is_group on run-time text (not decided); receivers are the constructs the DSL can emit as a whole text, so coverage is over those shapes. Trusts ast, re._parser, /verif/sa.",
+        "technique": "abstract interpretation over receiver shapes + syntax-tree / group-table comparison with the regex parser",
+    },
 }
 
 NOT_APPLICABLE = {
